@@ -25,6 +25,7 @@ import (
 	"go/token"
 	"os"
 	"os/exec"
+	"os/signal"
 	"path/filepath"
 	"runtime/debug"
 	"sort"
@@ -380,6 +381,20 @@ func setup() {
 	c.Extra["xgo_build_s"] = float64(int(time.Since(t0).Seconds()*10)) / 10
 	c.Extra["tree"] = repoRoot
 }
+
+// expired: the tiers have wall-clock limits (quick 90 s, thorough 10 min, both
+// including the build of cmd/xgo). On a loaded machine a traced run can cost
+// several times its normal 0.15 s, so the enumeration stops early (Cap,
+// exhaustive=false) rather than overrun; single-file configurations come first.
+func expired() bool {
+	budget := 80 * time.Second
+	if c.Thorough() {
+		budget = 540 * time.Second
+	}
+	return c.Expired() || time.Since(startTime) > budget
+}
+
+var startTime = time.Now()
 
 // die is a harness error (exit 2, no verdict); the scratch directory is removed first.
 func die(format string, a ...any) {
@@ -848,6 +863,13 @@ func main() {
 		"formatted bytes are computed in-process with format.Source / go/format / x/format.GopstyleSource, not taken from the command's output",
 		"for -mvgo the permission bits of the new .xgo path are not judged (the statement speaks of a file that keeps its path)",
 	}
+	sigc := make(chan os.Signal, 1)
+	signal.Notify(sigc, syscall.SIGINT, syscall.SIGTERM)
+	go func() { // the traced processes die with us (PTRACE_O_EXITKILL); remove the scratch directory
+		<-sigc
+		cleanup()
+		os.Exit(2)
+	}()
 	setup()
 	defer cleanup()
 	if c.IsReplay() {
@@ -896,7 +918,7 @@ func main() {
 	listed := map[string][]string{}
 	points := 0
 	for _, g := range cfgs {
-		if c.Expired() {
+		if expired() {
 			c.Cap("deadline reached before configuration " + g.String())
 			break
 		}
@@ -926,7 +948,7 @@ func main() {
 	kills:
 		for k := 1; k <= len(list); k++ {
 			for _, m := range []string{"entry", "exit"} {
-				if c.Expired() {
+				if expired() {
 					c.Cap("deadline reached inside configuration " + g.String())
 					break kills
 				}
